@@ -226,13 +226,13 @@ macro_rules! float_cases {
             for &nu in &[0.5, 1.0, 1.5, 2.0, 2.5, 5.0, 30.0, 1e3] {
                 let nr = R(nu);
                 // heavy tails: |t| can exceed f32::MAX with non-negligible probability for nu = 0.5 in f32; documented overflow region
-                let chk = move |x: F| if x.is_nan() { Some("NaN") } else if x.is_infinite() && !(IS32 && nu < 1.0) { Some("infinite") } else { None };
+                let chk = move |x: F| if x.is_nan() { Some("NaN") } else if x.is_infinite() { Some("infinite") } else { None };
                 r.add("StudentT", N, &[("nu", nu)], move || StudentT::<F>::new(nu as F).ok(), chk, cont(move |x| student_t_cdf(x, nr), -INF, INF), true);
             }
             // ---- FisherF
             for &(m, n) in &[(1.0, 1.0), (2.0, 32.0), (0.7, 3.0), (5.0, 2.0), (2.0, 2.0), (10.0, 10.0), (1.0, 30.0), (100.0, 100.0)] {
                 let (mr, nr) = (R(m), R(n));
-                let chk = move |x: F| if x.is_nan() { Some("NaN") } else if x < 0.0 { Some("negative") } else if x.is_infinite() && !(IS32 && (m < 2.0 || n < 2.0)) { Some("infinite") } else { None };
+                let chk = move |x: F| if x.is_nan() { Some("NaN") } else if x < 0.0 { Some("negative") } else if x.is_infinite() { Some("infinite") } else { None };
                 r.add("FisherF", N, &[("m", m), ("n", n)], move || FisherF::<F>::new(m as F, n as F).ok(), chk,
                     cont(move |x| fisher_f_cdf(x, mr, nr), 0.0, INF), true);
             }
@@ -395,6 +395,37 @@ macro_rules! float_cases {
                 r.add("Zeta", N, &[("s", 1.0 + 1e-15)], || Zeta::<F>::new((1.0 + 1e-15) as F).ok(),
                     |x: F| if x.is_nan() { Some("NaN") } else if x < 1.0 { Some("below 1") } else { None }, Law::None, false);
             }
+            // ---- extremes of the accepted parameter ranges (termination / word consumption only: the support is not judged,
+            //      overflow and underflow of the result are expected here)
+            {
+                let any = |_x: F| None;
+                let (tiny, huge, mx): (f64, f64, f64) = if IS32 { (1e-30, 1e30, f32::MAX as f64) } else { (1e-300, 1e300, f64::MAX) };
+                for &v in &[tiny, huge, mx, 1e-5, 1e5] {
+                    r.add("Gamma", N, &[("shape", v), ("scale", 1.0)], move || Gamma::<F>::new(v as F, 1.0).ok(), any, Law::None, false);
+                    r.add("Gamma", N, &[("shape", 0.5), ("scale", v)], move || Gamma::<F>::new(0.5, v as F).ok(), any, Law::None, false);
+                    r.add("Beta", N, &[("alpha", v), ("beta", 1.0)], move || Beta::<F>::new(v as F, 1.0).ok(), any, Law::None, false);
+                    r.add("Beta", N, &[("alpha", v), ("beta", v)], move || Beta::<F>::new(v as F, v as F).ok(), any, Law::None, false);
+                    r.add("Beta", N, &[("alpha", 2.0), ("beta", v)], move || Beta::<F>::new(2.0, v as F).ok(), any, Law::None, false);
+                    r.add("ChiSquared", N, &[("k", v)], move || ChiSquared::<F>::new(v as F).ok(), any, Law::None, false);
+                    r.add("StudentT", N, &[("nu", v)], move || StudentT::<F>::new(v as F).ok(), any, Law::None, false);
+                    r.add("FisherF", N, &[("m", v), ("n", 3.0)], move || FisherF::<F>::new(v as F, 3.0).ok(), any, Law::None, false);
+                    r.add("Exp", N, &[("lambda", v)], move || Exp::<F>::new(v as F).ok(), any, Law::None, false);
+                    r.add("Weibull", N, &[("scale", 1.0), ("shape", v)], move || Weibull::<F>::new(1.0, v as F).ok(), any, Law::None, false);
+                    r.add("Pareto", N, &[("scale", 1.0), ("shape", v)], move || Pareto::<F>::new(1.0, v as F).ok(), any, Law::None, false);
+                    r.add("Frechet", N, &[("location", 0.0), ("scale", 1.0), ("shape", v)], move || Frechet::<F>::new(0.0, 1.0, v as F).ok(), any, Law::None, false);
+                    r.add("InverseGaussian", N, &[("mean", v), ("shape", 1.0)], move || InverseGaussian::<F>::new(v as F, 1.0).ok(), any, Law::None, false);
+                    r.add("InverseGaussian", N, &[("mean", 1.0), ("shape", v)], move || InverseGaussian::<F>::new(1.0, v as F).ok(), any, Law::None, false);
+                    r.add("SkewNormal", N, &[("location", 0.0), ("scale", 1.0), ("shape", v)], move || SkewNormal::<F>::new(0.0, 1.0, v as F).ok(), any, Law::None, false);
+                    r.add("NormalInverseGaussian", N, &[("alpha", v), ("beta", 0.0)], move || NormalInverseGaussian::<F>::new(v as F, 0.0).ok(), any, Law::None, false);
+                    r.add("Zeta", N, &[("s", 1.0 + v)], move || Zeta::<F>::new((1.0 + v) as F).ok(), any, Law::None, false);
+                    r.add("Zipf", N, &[("n", v.max(1.0)), ("s", 1.5)], move || Zipf::<F>::new(v.max(1.0) as F, 1.5).ok(), any, Law::None, false);
+                    r.add("Zipf", N, &[("n", 100.0), ("s", v)], move || Zipf::<F>::new(100.0, v as F).ok(), any, Law::None, false);
+                    r.add("Pert", N, &[("min", 0.0), ("max", 1.0), ("mode", 0.5), ("shape", v)], move || Pert::<F>::new(0.0, 1.0).with_shape(v as F).with_mode(0.5).ok(), any, Law::None, false);
+                }
+                for &s in &[130.0, 200.0, 1100.0, 1e6] {
+                    r.add("Zeta", N, &[("s", s)], move || Zeta::<F>::new(s as F).ok(), any, Law::None, false);
+                }
+            }
             // ---- unit geometry
             let norm1 = move |c: &[f64]| {
                 if c.iter().any(|x| x.is_nan()) { return Some("NaN"); }
@@ -434,6 +465,8 @@ macro_rules! float_cases {
                 vec![0.05, 0.1, 0.02], vec![0.1, 0.1, 0.1], vec![0.5, 1.0, 7.0], vec![0.11, 0.05, 0.1], vec![1e-3, 1.0, big], vec![2.0, 3.0, 4.0], vec![0.02, 0.09, 0.05],
                 vec![0.05, 0.1, 0.02, 0.07], vec![0.5, 1.0, 7.0, 0.11], vec![1.0, 1.0, 1.0, 1.0],
                 vec![0.05; 8], vec![1.0, 0.5, 0.11, 7.0, 1e-3, 0.05, big, 1.0],
+                // maximum exactly at the 0.1 switch with tiny other entries, and just above it
+                vec![0.1, 1e-3, 1e-3], vec![1e-3, 0.1], vec![0.11, 1e-3, 1e-3], vec![1e-3, 1e-3, 0.1, 1e-3],
             ];
             alphas.push((0..64).map(|i| [1e-3, 0.05, 0.1, 0.02][i % 4]).collect());
             alphas.push((0..64).map(|i| [1e-3, 0.05, 0.11, 0.5, 1.0, 7.0, big][i % 7]).collect());
@@ -504,6 +537,13 @@ pub fn cases_int(r: &mut Reg, tier: Tier, _seed: u64) {
     for &n in &[1u64 << 63, u64::MAX] {
         for &p in &[0.5, 0.3, 1e-3, 1.0 - 1e-3] {
             bin.push((n, p, false));
+        }
+    }
+    // inverse-transform regime at the extremes of n (np between 1e-3 and just below the BINV/BTPE switch)
+    for &n in &[1u64 << 32, 1 << 53, 1 << 63, u64::MAX] {
+        for &np in &[1e-3, 1.0, 5.6, 9.9] {
+            bin.push((n, np / n as f64, false));
+            bin.push((n, 1.0 - np / n as f64, false));
         }
     }
     let _ = tier;
